@@ -133,11 +133,13 @@ def ws_json(w):
     return {"files": {k.decode("latin-1"): [v[0].decode("latin-1"), v[1]] for k, v in w["files"].items()},
             "dirs": [d.decode("latin-1") for d in w["dirs"]], "series": w["series"].decode("latin-1"),
             "applied": None if w.get("applied") is None else w["applied"].decode("latin-1"),
+            "links": {k.decode("latin-1"): v.decode("latin-1") for k, v in (w.get("links") or {}).items()},
             "patches": {k.decode("latin-1"): v.decode("latin-1") for k, v in w["patches"].items()}}
 
 
 def ws_from_json(j):
-    return {"files": {k.encode("latin-1"): (v[0].encode("latin-1"), v[1]) for k, v in j["files"].items()},
+    return {"links": {k.encode("latin-1"): v.encode("latin-1") for k, v in (j.get("links") or {}).items()},
+            "files": {k.encode("latin-1"): (v[0].encode("latin-1"), v[1]) for k, v in j["files"].items()},
             "dirs": [d.encode("latin-1") for d in j["dirs"]], "series": j["series"].encode("latin-1"),
             "applied": None if j.get("applied") is None else j["applied"].encode("latin-1"),
             "patches": {k.encode("latin-1"): v.encode("latin-1") for k, v in j["patches"].items()}}
